@@ -479,12 +479,31 @@ func (g *cgen) setting(t *gen.TD, tv *gen.TV, gp string, others []*gen.TD) *gen.
 		return g.setting(sh.Elem, tv.Elems[0], "-", oe)
 	case "slice":
 		n := rapid.IntRange(0, 3).Draw(g.t, "llen")
+		if rapid.IntRange(0, 3).Draw(g.t, "lplain") == 3 {
+			// a value that is no list stands for the list of one element ("Primitive values will be handled like
+			// arrays of length 1"): the plain spelling of [v], whatever the place is pre-filled with. An element
+			// whose own setting is an object or a list keeps the list spelling (an object given for a list is read
+			// as a list without elements, a list as the list itself).
+			if e := g.setting(sh.Elem, elemTV(0), "-", oe); e.IsPrim() {
+				return e
+			} else {
+				return gen.List(e)
+			}
+		}
 		l := gen.List()
 		for i := 0; i < n; i++ {
 			l.Vals = append(l.Vals, g.setting(sh.Elem, elemTV(i), "-", oe))
 		}
 		return l
 	case "array":
+		if sh.N == 1 && rapid.IntRange(0, 2).Draw(g.t, "aplain") == 0 {
+			// the plain spelling of a list of one element, for an array of one element
+			if e := g.setting(sh.Elem, elemTV(0), "-", oe); e.IsPrim() {
+				return e
+			} else {
+				return gen.List(e)
+			}
+		}
 		l := gen.List()
 		for i := 0; i < sh.N; i++ {
 			l.Vals = append(l.Vals, g.setting(sh.Elem, elemTV(i), "-", oe))
@@ -725,6 +744,11 @@ func sites(t *gen.TD, cfg *gen.Tree, sep string) []site {
 				visit(sh.Elem, s, p, nil, "", "", append(append([]string{}, path...), s.Keys[p]))
 			}
 		case "slice", "array":
+			if s.IsPrim() {
+				// a value that is no list stands for the list of one element
+				visit(sh.Elem, parent, pos, nil, "", "", append(append([]string{}, path...), "0"))
+				return
+			}
 			if s.K != "list" {
 				return
 			}
